@@ -348,7 +348,15 @@ static void scenario(int cfg)
         if (fin_live[v])
             tl += snprintf(tag + tl, sizeof(tag) - tl, "v%d=%d ", v,
                            fin_rank[v]);
-    abtmc_observe("%s", tag);
+    /* which actor's last call returned first (distinguishes schedules whose
+     * results are necessarily identical, e.g. two set_rank(x, r) on one x) */
+    {
+        int first = 0;
+        for (int a = 1; a < C->nact; a++)
+            if (rec[a][nrec[a] - 1].t_ret < rec[first][nrec[first] - 1].t_ret)
+                first = a;
+        abtmc_observe("%s first_done=%d", tag, first);
+    }
 
     int pos[MAXACT] = { 0, 0, 0 };
     if (!l_search(&m0, pos)) {
